@@ -39,7 +39,7 @@ fn plant_env(side: &mut Vec<El>, r: &mut Rng, p: &str, before: bool) {
     side.insert(i, El::Ipa(p.to_string(), None));
 }
 
-fn gen(r: &mut Rng) -> Case {
+pub(crate) fn gen(r: &mut Rng) -> Case {
     let rule = rand_rule(r, &RuleCfg::default());
     let planted = plant(&rule, r);
     // a quarter of the words are built from recurring syllables, so that inputs with back-references (`%=1 1`, `C=1 V 1`) match
@@ -71,7 +71,7 @@ pub fn judge(rep: &mut Report, c: &Case) {
 }
 
 pub fn explore(ctx: &Ctx, shard: usize, n: usize) -> Report {
-    let mut rep = drive::cases(ctx, shard, n, RULE, 0x06, 300_000, 20_000_000, |r, rep, _| { let c = gen(r); judge(rep, &c); });
+    let mut rep = drive::cases(ctx, shard, n, RULE, 0x06, 300_000, 80_000_000, |r, rep, _| { let c = gen(r); judge(rep, &c); });
     // blank and comment-only lines
     if shard == 0 {
         let mut r = Rng::new(ctx.seed, 0x0606);
